@@ -114,6 +114,14 @@ Definition class_diffs (cs : list (list Z)) (arcs : list (nat * nat)) (c : list 
                           if is_zero_vec d then [] else [d]
                      else []) arcs.
 
+(** nondegeneracy_test: total coefficient of a complex; int(max(complex_sizes)) if complex_sizes else 0 *)
+Definition complex_size (c : list Z) : Z := fold_right Z.add 0%Z c.
+Definition max_complex_size (cs : list (list Z)) : Z :=
+  match cs with
+  | [] => 0%Z
+  | c :: rest => fold_left (fun acc c' => Z.max acc (complex_size c')) rest (complex_size c)
+  end.
+
 Record summary := Summary { n_species : nat; n_reactions : nat; n_complexes : nat; n_linkage : nat; stoich_rank : nat;
                             deficiency : Z; weakly_rev : bool }.
 
@@ -147,7 +155,11 @@ Definition certs_ok (net : list rxn) (iso : list str) (rc : rcert) (ccs : list r
 
 Definition tarc (a : nat * nat) : tok := L [tnat (fst a); tnat (snd a)].
 
-Definition run19 (net : list rxn) (iso : list str) (rc : rcert) (ccs : list rcert) : tok :=
+(** the two exact outputs of nondegeneracy_test: nullity of S^T (number of species - rank) and the largest complex size *)
+Definition tnondeg2 (s : summary) (cs : list (list Z)) : tok :=
+  L [tnat (n_species s - stoich_rank s); I (max_complex_size cs)].
+
+Definition run19_flag (flag : bool) (net : list rxn) (iso : list str) (rc : rcert) (ccs : list rcert) : tok :=
   match net with
   | [] => L [I 2%Z]
   | _ =>
@@ -164,12 +176,15 @@ Definition run19 (net : list rxn) (iso : list str) (rc : rcert) (ccs : list rcer
         L [tnat (n_species s); tnat (n_reactions s); tnat (n_complexes s); tnat (n_linkage s); tnat (stoich_rank s);
            I (deficiency s); tbool (weakly_rev s)];
         tlist I ld;
-        tbool (certs_ok net iso rc ccs);
+        tbool flag;
         tbool reg;
         tbool (check_deficiency_zero s);
         tbool (check_deficiency_one s ld);
-        tbool (deficiency_one_hypotheses s ld reg) ]
+        tbool (deficiency_one_hypotheses s ld reg);
+        tnondeg2 s cs ]
   end.
+Definition run19 (net : list rxn) (iso : list str) (rc : rcert) (ccs : list rcert) : tok :=
+  run19_flag (certs_ok net iso rc ccs) net iso rc ccs.
 
 (** A call history on ONE DeficiencyAnalyzer object whose network is edited between the calls.  The object stores
     _summary, _complexes, _idx_map, _complex_graph, _linkage_deficiencies and _structural_one_result; each analysis
@@ -235,7 +250,8 @@ Definition obs_of_state (x : hist_step) (st : astate) : tok :=
            I (deficiency s); tbool (weakly_rev s)];
         tlist I ld;
         tbool (certs_ok (hs_net x) (hs_iso x) (hs_rc x) (hs_ccs x));
-        tbool reg; tbool (check_deficiency_zero s); tbool (check_deficiency_one s ld); tbool hyp ]
+        tbool reg; tbool (check_deficiency_zero s); tbool (check_deficiency_one s ld); tbool hyp;
+        tnondeg2 s cs ]
   | _, _, _ => L [I 3%Z]
   end.
 
